@@ -229,6 +229,11 @@ class ContainerCodec(Codec):
                     if isinstance(k, tuple):
                         msg = "Tuple keys not supported"
                         raise SerDesError(msg)
+                    if not isinstance(k, str):
+                        # json would silently turn the key into its string form (1 -> "1", None -> "null"),
+                        # so the value could not be reproduced exactly
+                        msg = f"Only string keys are supported, got {type(k)!r}"
+                        raise SerDesError(msg)
                 return EncodedValue(
                     TypeTag.DICT,
                     {k: self._wrap(v, self.dispatcher) for k, v in obj.items()},
